@@ -1,6 +1,7 @@
 package checks
 
 import (
+	"encoding/json"
 	"fmt"
 	"os"
 )
@@ -52,4 +53,7 @@ var Checks = map[string]func(env *Env, rep *Report){
 	"C11": RunC11,
 	"C14": RunC14,
 	"C15": RunC15,
+	"C09": RunC09,
 }
+
+func jsonUnmarshal(b []byte, v interface{}) { _ = json.Unmarshal(b, v) }
